@@ -413,8 +413,11 @@ pub fn run_twin(out: &mut dyn Write, seed: u64, thorough: bool, n_hist: usize) {
                 let v = ID_VAMM0 + rng.below(wc.vamms.len() as u64) as u32;
                 let t = *rng.pick(&TRADERS);
                 let amt = u * (1 + rng.below(60) as u128) + rng.below(1000) as u128;
-                let lev = u * (1 + rng.below(4) as u128);
-                let kind = rng.below(14);
+                let mut lev = u * (1 + rng.below(4) as u128);
+                // mostly a leverage the current initial margin ratio admits
+                let imr = eng_cfg(&wc).initial_margin_ratio.u128();
+                if imr > 0 && rng.chance(9, 10) { lev = lev.min(u * u / imr).max(1); }
+                let kind = rng.below(16);
                 // both deployments get the same message; the native one attaches what the cw20 one pulls
                 let (opc, opn): (Op, Op) = match kind {
                     0..=6 => {
@@ -450,10 +453,27 @@ pub fn run_twin(out: &mut dyn Write, seed: u64, thorough: bool, n_hist: usize) {
                     11 => { let o = Op::Block { dt: match rng.below(3) { 0 => 0, 1 => 100, _ => 3700 }, dh: 1 }; (o.clone(), o) }
                     12 => { let o = Op::Eng { sender: STRANGER, funds: 0, m: EMsg::PayFunding { vamm: v } }; (o.clone(), o) }
                     _ => { let ps = with_position(&wc); if ps.is_empty() { continue; } let (v, t) = *rng.pick(&ps);
+                        // half of the liquidations run with a partial-liquidation ratio, so that both liquidation branches
+                        // (and their different recipients) are compared across the twins
+                        if rng.chance(1, 2) {
+                            let plr = *rng.pick(&[0u128, u / 10, u / 4, u / 2, u * 9 / 10]);
+                            let o = Op::Eng { sender: ID_OWNER, funds: 0, m: EMsg::UpdCfg { owner: None, ifund: None, fpool: None, init: None, maint: None, plr: Some(plr), liqfee: None } };
+                            trc.step(&mut wc, &o); trn.step(&mut wn, &o);
+                        }
                         let mut r1 = rng.clone(); let mut r2 = rng.clone();
                         steer_liquidatable(&mut trc, &mut wc, &mut r1, v, t);
                         steer_liquidatable(&mut trn, &mut wn, &mut r2, v, t);
-                        rng = r1; continue; }
+                        rng = r1;
+                        // most of the time the ratios go back to the deployment's afterwards, in a new block, so that the rest
+                        // of the history is not spent on refused opens
+                        if rng.chance(3, 4) {
+                            for o in [Op::Block { dt: 7, dh: 1 },
+                                      Op::Eng { sender: ID_OWNER, funds: 0, m: EMsg::UpdCfg { owner: None, ifund: None, fpool: None, init: None, maint: Some(d.maint), plr: None, liqfee: None } },
+                                      Op::Eng { sender: ID_OWNER, funds: 0, m: EMsg::UpdCfg { owner: None, ifund: None, fpool: None, init: Some(d.init), maint: None, plr: None, liqfee: None } }] {
+                                trc.step(&mut wc, &o); trn.step(&mut wn, &o);
+                            }
+                        }
+                        continue; }
                 };
                 // the cw20 deployment runs first; what it actually pulled from the caller (the drop of the caller's
                 // allowance to the engine) is what the native call attaches; when the cw20 call fails, the predicted amount
